@@ -20,7 +20,7 @@ type PropConfig struct {
 	Packages  []string `json:"packages"`
 	Functions []string `json:"functions"`         // display names of functions under contract; "*" = every contract in the loaded packages
 	FnPkgs    []string `json:"function_packages"` // with "*": restrict to contracts of these package paths (relative to the module)
-	Labels    []string `json:"labels"`    // if non-empty: only postconditions with one of these labels are binding for this property
+	Labels    []string `json:"labels"`            // if non-empty: only postconditions with one of these labels are binding for this property
 	Lemmas    []string `json:"lemmas"`            // lemma names ("pkg.lemma:name"), "*" = all in function_packages
 	Sweep     *struct {
 		Packages []string `json:"packages"` // package path prefixes (relative to the module) swept without annotations
@@ -245,7 +245,22 @@ func cmdCheck(args []string) int {
 		}
 	}
 	if cfg.Sweep != nil {
-		results = append(results, runSweep(w, cfg.Sweep.Packages)...)
+		sw := runSweep(w, cfg.Sweep.Packages)
+		if base := loadBaseline(prop); *tier == "quick" && len(base) > 0 && !*updateBaseline {
+			// quick tier: the binding (baseline) sweep obligations are discharged, plus obligations that are new on this
+			// tree (neither proved nor recorded as unproved when the baseline was taken)
+			noise := loadNameList(prop + ".unproved")
+			for _, r := range sw {
+				keep := r.Obls[:0]
+				for _, o := range r.Obls {
+					if base[o.Name] || !noise[o.Name] {
+						keep = append(keep, o)
+					}
+				}
+				r.Obls = keep
+			}
+		}
+		results = append(results, sw...)
 	}
 	for _, g := range cfg.Ground {
 		results = append(results, runGround(w, g)...)
@@ -303,9 +318,11 @@ func loadKnownFindings() []KnownFinding {
 	return kf
 }
 
-func loadBaseline(prop string) map[string]bool {
+func loadBaseline(prop string) map[string]bool { return loadNameList(prop + ".expected") }
+
+func loadNameList(file string) map[string]bool {
 	out := map[string]bool{}
-	data, err := os.ReadFile(filepath.Join(verifDir, "obligations", prop+".expected"))
+	data, err := os.ReadFile(filepath.Join(verifDir, "obligations", file))
 	if err != nil {
 		return out
 	}
